@@ -77,11 +77,16 @@ package watstrip
 //@   loop 4 invariant rep_ok(p) && (forall i int :: 0 <= i && i <= rangeindex_L1 ==> (p.m.Funcs[i].Name != "" && p.m.Funcs[i].Name == p.m.Start ==> p.funcs[p.m.Start].color == black))
 //@   loop 5 invariant rep_ok(p) && ref(m.Imports) == ref(old(p.m.Imports)) && off(m.Imports) == off(old(p.m.Imports)) && 0 <= len(m.Imports) && len(m.Imports) <= rangeindex + 1 && cap(m.Imports) == cap(old(p.m.Imports))
 //@   loop 5 invariant forall i int :: rangeindex < i && i < len(old(p.m.Imports)) ==> old(p.m.Imports)[i] == old(old(p.m.Imports)[i])
+//@   loop 5 invariant forall i int :: 0 <= i && i <= rangeindex && (old(old(p.m.Imports)[i]).ObjKind != token.FUNC || p.funcs[old(old(p.m.Imports)[i]).FuncName].color != white) ==> (exists j int :: 0 <= j && j < len(m.Imports) && m.Imports[j] == old(old(p.m.Imports)[i]))
+//@   loop 6 invariant forall i int :: 0 <= i && i <= rangeindex && p.funcs[old(old(p.m.Funcs)[i]).Name].color == black ==> (exists j int :: 0 <= j && j < len(m.Funcs) && m.Funcs[j] == old(old(p.m.Funcs)[i]))
+//@   loop 6 invariant forall i int :: 0 <= i && i < len(old(p.m.Imports)) && (old(old(p.m.Imports)[i]).ObjKind != token.FUNC || p.funcs[old(old(p.m.Imports)[i]).FuncName].color != white) ==> (exists j int :: 0 <= j && j < len(m.Imports) && m.Imports[j] == old(old(p.m.Imports)[i]))
 //@   loop 6 invariant rep_ok(p) && ref(m.Funcs) == ref(old(p.m.Funcs)) && off(m.Funcs) == off(old(p.m.Funcs)) && 0 <= len(m.Funcs) && len(m.Funcs) <= rangeindex + 1 && cap(m.Funcs) == cap(old(p.m.Funcs))
 //@   loop 6 invariant forall i int :: rangeindex < i && i < len(old(p.m.Funcs)) ==> old(p.m.Funcs)[i] == old(old(p.m.Funcs)[i])
 //@   loop 6 invariant forall j int :: 0 <= j && j < len(m.Funcs) ==> m.Funcs[j] != nil && has(p.funcs, m.Funcs[j].Name) && p.funcs[m.Funcs[j].Name].color == black
 //@   ensures[start] forall i int :: 0 <= i && i < len(old(p.m.Funcs)) ==> (old(p.m.Funcs[i].Name) != "" && old(p.m.Funcs[i].Name) == old(p.m.Start) ==> p.funcs[old(p.m.Start)].color == black)
 //@   ensures[kept-black] forall j int :: 0 <= j && j < len(result.Funcs) ==> result.Funcs[j] != nil && has(p.funcs, result.Funcs[j].Name) && p.funcs[result.Funcs[j].Name].color == black
+//@   ensures[imports-kept] forall i int :: 0 <= i && i < len(old(p.m.Imports)) && (old(old(p.m.Imports)[i]).ObjKind != token.FUNC || p.funcs[old(old(p.m.Imports)[i]).FuncName].color != white) ==> (exists j int :: 0 <= j && j < len(result.Imports) && result.Imports[j] == old(old(p.m.Imports)[i]))
+//@   ensures[black-kept] forall i int :: 0 <= i && i < len(old(p.m.Funcs)) && p.funcs[old(old(p.m.Funcs)[i]).Name].color == black ==> (exists j int :: 0 <= j && j < len(result.Funcs) && result.Funcs[j] == old(old(p.m.Funcs)[i]))
 //@   noframe
 //@   safe
 //@   property C06
